@@ -798,4 +798,129 @@ theorem emitAlt_ty (cfg : Cfg) : ∀ (cs : List GoNode) (a fin : Nat) (tb : Tabl
       exact emitAlt_ty cfg cs _ fin _ σ F hok.2 hfin' hagr hexr
 end
 
+/-! ### the whole program -/
+
+/-- the assignment of the program of `root`: `[]` at the `Lazybranch` at 0 and at the final `Stop`, `tyAt` in between -/
+def progFn (cfg : Cfg) (root : GoNode) : Fn := fun q =>
+  if q = 0 then some []
+  else if q = 2 + size cfg root then some []
+  else if 2 ≤ q ∧ q < 2 + size cfg root then tyAt cfg 2 [] root q
+  else none
+
+theorem progFn_bound (cfg : Cfg) (root : GoNode) {q : Nat} {τ : STy} (h : progFn cfg root q = some τ) :
+    q < size cfg root + 3 := by
+  unfold progFn at h
+  split at h
+  · omega
+  · split at h
+    · omega
+    · split at h
+      · omega
+      · cases h
+
+theorem codeFromTree_codeTy (cfg : Cfg) (root : GoNode) (hok : root.ok = true) :
+    CodeTy (progFn cfg root) 0 (codeFromTree cfg root).1 := by
+  have f0 : progFn cfg root 0 = some [] := by simp [progFn]
+  have fe : progFn cfg root (2 + size cfg root) = some [] := by unfold progFn; ifs
+  have hag : ∀ q, 2 ≤ q → q < 2 + size cfg root → progFn cfg root q = tyAt cfg 2 [] root q := by
+    intro q h1 h2; unfold progFn; ifs
+  have hent := entry_ok cfg root 2 [] hag (ExitOk.refl fe)
+  simp only [codeFromTree, List.cons_append, List.nil_append]
+  refine CodeTy_cons (q' := 2) rfl (L_lazybranch _ f0 (by simpa using hent) (ExitOk.refl fe)) ?_
+  refine CodeTy_app (q' := 2 + size cfg root) (by rw [emitNode_size]) (emitNode_ty cfg root 2 _ [] _ hok hag (ExitOk.refl fe)) ?_
+  exact CodeTy_one (L_stop fe)
+
+theorem CodeTy_split {F : Fn} : ∀ (pre : Code) (i : Instr) (post : Code) (a : Nat),
+    CodeTy F a (pre ++ i :: post) → InstrTy F (a + codeLen pre) i := by
+  intro pre i post a h
+  have := (CodeTy_append F pre (i :: post) a).mp h
+  exact this.2.1
+
+/-- the assignment as an array -/
+def arrOf (F : Fn) (N : Nat) : Assign := ((List.range N).map F).toArray
+
+theorem arrOf_get (F : Fn) (N q : Nat) (h : q < N) : (arrOf F N).get q = F q := by
+  simp [arrOf, Assign.get, h]
+
+/-- opcodes of one word do not read the jump operand -/
+theorem flowA_tgt (t1 t2 : Option Nat) (pc : Nat) (o : VM.Op) (σ : STy) (h : o.size = 1) :
+    flowA t1 pc o σ = flowA t2 pc o σ := by
+  cases o <;> first | rfl | (simp [VM.Op.size] at h)
+
+theorem target_progOf (pre : Code) (i : Instr) (post : Code) (s n t c cp r) (x : Int) (xs : List Int)
+    (h : i.args = x :: xs) : target (progOf (pre ++ i :: post) s n t c cp r) (codeLen pre) = tgtOf i := by
+  have := codes_arg pre i post s n t c cp r 0 x (by rw [h]; rfl)
+  simp only [Nat.add_zero] at this
+  unfold target tgtOf
+  rw [this, h]
+  cases x <;> rfl
+
+/-- **the bridge**: a program whose instruction list is consistent with an assignment function has a typing -/
+theorem typingW_progOf (c : Code) (F : Fn) (s : Array (List Nat)) (n t cs : Nat) (cp r)
+    (hw : AllW c) (hF0 : F 0 = some [])
+    (hb : ∀ q τ, F q = some τ → q < codeLen c) (hty : CodeTy F 0 c) :
+    TypingW (progOf c s n t cs cp r) (istarts 0 c) (arrOf F (codeLen c)) := by
+  have hN : 0 < codeLen c := hb 0 [] hF0
+  refine ⟨by rw [arrOf_get F _ 0 hN]; exact hF0, ?_⟩
+  intro pc hpc σ hσ
+  obtain ⟨pre, i, post, e, hp⟩ := mem_istarts_split c 0 pc hpc
+  simp only [Nat.zero_add] at hp
+  subst hp
+  have hlt : codeLen pre < codeLen c := by rw [e, codeLen_append]; simp only [codeLen_cons]; omega
+  rw [arrOf_get F _ _ hlt] at hσ
+  have hi : i ∈ c := by rw [e]; simp
+  have hit := CodeTy_split pre i post 0 (by rw [← e]; exact hty)
+  simp only [Nat.zero_add] at hit
+  obtain ⟨o, succs, ho, hsz, hfl, hs⟩ := hit σ hσ
+  have hop : i.op < 1024 := by
+    have := hw i hi
+    simp only [opWordOk, Bool.and_eq_true, decide_eq_true_eq] at this
+    exact this.1.1.1
+  refine ⟨o, succs, ?_, ?_, ?_⟩
+  · unfold opAt
+    rw [e, fetch_progOf pre i post s n t cs cp r hop]
+    exact ho
+  · rw [flow_eq_flowA, ← hfl, e]
+    cases hargs : i.args with
+    | nil => exact flowA_tgt _ _ _ _ _ (by rw [hsz, hargs]; rfl)
+    | cons x xs => rw [target_progOf pre i post s n t cs cp r x xs hargs]
+  · intro x hx
+    obtain ⟨τ, h1, h2⟩ := hs x hx
+    exact ⟨τ, by rw [arrOf_get F _ _ (hb _ _ h1)]; exact h1, h2⟩
+
+/-- the program of `codeFromTree cfg root` (with any tables, `TrackCount`, `Caps`) has a typing -/
+theorem codeFromTree_typing (cfg : Cfg) (cs : Nat) (root : GoNode) (hok : root.ok = true)
+    (hcaps : capsOk cfg cs root = true) (s : Array (List Nat)) (n t : Nat) (cp r) :
+    ∃ bs a, (progOf (codeFromTree cfg root).1 s n t cs cp r).boundaries = some bs ∧
+      TypingW (progOf (codeFromTree cfg root).1 s n t cs cp r) bs a := by
+  have ha : ∀ i ∈ (codeFromTree cfg root).1, i.arityOk = true := by
+    intro i hi
+    have := codeFromTree_local cfg cs root hok hcaps i hi
+    simp only [Instr.localOk, Bool.and_eq_true] at this
+    exact this.1.1.1.1
+  refine ⟨istarts 0 (codeFromTree cfg root).1, arrOf (progFn cfg root) (codeLen (codeFromTree cfg root).1),
+    boundaries_progOf _ s n t cs cp r ha, ?_⟩
+  refine typingW_progOf _ (progFn cfg root) s n t cs cp r (codeFromTree_word cfg root hok) (by simp [progFn]) ?_
+    (codeFromTree_codeTy cfg root hok)
+  intro q τ h
+  rw [codeFromTree_len]
+  exact progFn_bound cfg root h
+
+/-- **(B) every emitted program has a grouping-stack typing** -/
+theorem emit_typing (ti : TreeInfo) (root : GoNode) (h : treeWf ti root = true) :
+    ∃ bs a, (emit ti root).boundaries = some bs ∧ TypingW (emit ti root) bs a := by
+  simp only [treeWf, Bool.and_eq_true] at h
+  obtain ⟨⟨hok, hcaps⟩, _⟩ := h
+  rw [emit_eq_progOf]
+  exact codeFromTree_typing (mainCfg ti) (capsize ti) root hok hcaps _ _ _ _ _
+
+/-- the same for the bool-only program -/
+theorem emitQuick_typing (ti : TreeInfo) (root : GoNode) (h : treeWf ti root = true) (qp : Prog)
+    (hq : emitQuick ti root = some qp) : ∃ bs a, qp.boundaries = some bs ∧ TypingW qp bs a := by
+  simp only [treeWf, Bool.and_eq_true] at h
+  obtain ⟨⟨hok, hcaps⟩, _⟩ := h
+  rw [emitQuick_eq_progOf ti root qp hq]
+  refine codeFromTree_typing (quickCfg ti root) (capsize ti) root hok ?_ _ _ _ _ _
+  rw [← hcaps]; exact capsOk_quick _ _ _ root
+
 end RegexVerif.Lemmas.StackTypingEmit
